@@ -69,7 +69,9 @@ GLOBS = ["*.txt", "?.log", "*.*", "a*", "%.txt", "_.log", "*", "?", "%"]
 DATES = ["2020-01-01", "'2020-01-01 10:00'", "today", "yesterday", "-1", "+1", "2020-13-45", "'2020-02-30'",
          "1970-01-01", "2999-12-31", "'apr 1'", "'last fri'"]
 PATHS = [".", "a.txt", "./sub", "sub", "nonexistent", "sub/deep", "..", "/", "~", "/t", "empty", "z.zip",
-         "./", "sub/", "/t/sub", "../t", "*", "/t/s*"]
+         "./", "sub/", "/t/sub", "../t", "*", "/t/s*",
+         # argument bytes that are not valid UTF-8 (written with surrogate escapes; the OS passes them as raw bytes)
+         "r\udcff", "sub/\udcfe\udcff", "~x"]
 QUOTED = ["'abc'", '"x y"', "`q`", "''", "'", '"', "`", "'abc", 'abc"', "'a,b'", "'(a)'", "'%.txt'"]
 SWITCHES = ["-c", "--config", "/c", "--nocolor", "--no-color", "/nocolor", "-v", "--version", "-h", "--help",
             "/?", "/h", "-i", "--i", "/i", "/cfg/alt.toml", "/cfg/bad.toml", "/cfg/none.toml"]
@@ -345,6 +347,9 @@ def enumerate_cases(tier):
         cases.append({"cls": "v:limit", "argv": [("name from . where size > 1 order by name limit " + v).strip()], "expect2": True})
     for v in ["xml", "", "yaml", "table", "'js on'", "limit"]:
         cases.append({"cls": "v:format", "argv": [("name from . into " + v).strip()], "expect2": True})
+    for argv in [["name from", "r\udcff"], ["\udcff"], ["name", "from", ".", "where", "name", "=", "\udcff"], ["name from . where name = '\udcc3('"],
+                 ["-c", "\udcff.toml", "name from ."], ["name", "\udcfe"]]:
+        cases.append({"cls": "i", "argv": argv, "expect2": False})
     for toks in [["from", "."], ["from", ".", "where", "size", ">", "1"], ["where", "size", ">", "1"], ["into", "json"],
                  ["order", "by", "name"], ["limit", "5"], ["select"], ["select", "from", "."], [","],
                  ["select", ",", "from", "sub"], ["from", ".", "into", "list"], ["and"], [")"], ["select", "into", "csv"]]:
